@@ -100,7 +100,7 @@ CHECKS = {
    level="translation_validation", design="DESIGN.md 6.4, 7 (C19)",
    technique="TLA+ spec Account.tla behaviours (TLC transition tour) executed on the file-system and sqlite backends in lock-step (same observable account), then the file-system instance upgraded (dry run, real) and compared with its source",
    text="Per generated history (instance of the translation): the history is executed on both backends in lock-step and every step must give the same projected state (BackendsAgree); at the end the file-system account directory is copied, upgrade_accounts is run as a dry run (every file of the source must stay byte-identical) and for real, and the resulting sqlite account must sign in with the same password and report the same sync status for the identity, account, device, file and every folder log (same roots and lengths), the same trusted devices and the same decrypted folders (name, flags, description, secrets).",
-   note="One account per data directory; client layout only; preferences and server list are not generated (a two-blob file secret is added before the upgrade); the post-upgrade sync against a server holding the pre-upgrade state is implied by equal sync status, not executed."),
+   note="Right before the upgrade (outside Account.tla) a two-blob file secret, a second account in the same data directory, global and per-account preferences of every type and two servers are added and compared afterwards; client layout only; the post-upgrade sync against a server holding the pre-upgrade state is implied by equal sync status, not executed."),
 }
 
 NOT_YET = {
